@@ -7,6 +7,7 @@
   result value, every errno / error kind, every directory content, every requested size.
 -/
 import Fbr.Lemmas.SrvReply
+import Fbr.Lemmas.SrvDecode
 import Fbr.Gen.Server
 
 namespace Fbr.Thm.C03
@@ -218,5 +219,208 @@ theorem notify_resend_encoding (cap : Nat) (hcap : 16 ≤ cap) :
 
 /-- non-vacuity of `dirents_whole_aligned`: a concrete two-entry directory and capacity -/
 example : (24 : Nat) + 16 ≤ ({ fusedev := true, cap := 4096 } : Cfg).cap := by decide
+
+
+/-! ### whole-request reply theorems for the small reply structures
+
+For a request that reaches its handler (`Req fs h`: well-formed header, length within the limit,
+id-remap not refused) and a file system that answers the operation with the given value, the
+bytes handed to the transport are exactly `header ++ body` with the body the kernel's structure
+for that opcode.  `emit cfg m` = one `write` of `m` on /dev/fuse, or `m` stored at the start of
+the reply area on virtio-fs. -/
+
+/-- the common tail: one file-system call, reply = header ++ body ++ data -/
+theorem simple_out (cfg : Cfg) (fs : Call → Ans) (u : Nat) (calls0 : List Call) (c : Call) (al : List Nat)
+    (okb : Ans → Option (Bytes × Bytes)) (body data : Bytes) (hne : ∀ e, fs c ≠ .err e)
+    (hb : okb (fs c) = some (body, data)) (hfit : 16 + body.length + data.length ≤ cfg.cap) :
+    (simple cfg fs u calls0 c al okb).out =
+      emit cfg (outHeader (16 + body.length + data.length) 0 u ++ body ++ data) :=
+  ok_reply_is_concatenation cfg u _ al (fs c) okb body data hne hb hfit
+
+/-- LSEEK: the new offset as `fuse_lseek_out` -/
+theorem lseek_reply_exact (cfg : Cfg) (fs : Call → Ans) (h : Hdr) (R : Req fs h) (hop : h.op = 46)
+    (fh off whence pad n : Nat) (trail : Bytes)
+    (hans : ∀ c, c.method = "lseek" → fs c = .count n) (hcap : 24 ≤ cfg.cap) :
+    (handle cfg fs (encHdr h ++ (le64 fh ++ le64 off ++ le32 whence ++ le32 pad ++ trail))).out =
+      emit cfg (outHeader 24 0 h.unique ++ le64 n) := by
+  rw [handle_reaches_handler cfg fs h R.wf _ R.len R.remapOk, hop]
+  unfold handleBody
+  simp only
+  rw [withObj_ok _ _ _ _ _ (by simp only [List.length_append, le32_length, le64_length]; omega)]
+  rw [simple_out _ _ _ _ _ _ _ (le64 n) [] (by rw [hans _ rfl]; intro e he; cases he)
+    (by rw [hans _ rfl]) (by simp only [le64_length, List.length_nil]; omega)]
+  simp
+
+theorem lseek_reply_decodes (n : Nat) (rest : Bytes) : u64At (le64 n ++ rest) 0 = n % 2 ^ 64 := by
+  wire_mod
+
+
+/-- WRITE: the number of bytes the file system reported as `fuse_write_out` (size, padding 0) -/
+theorem write_reply_exact (cfg : Cfg) (fs : Call → Ans) (h : Hdr) (R : Req fs h) (hop : h.op = 16)
+    (fh off wf owner flags pad n : Nat) (payload : Bytes)
+    (hans : ∀ c, c.method = "write" → fs c = .count n) (hcap : 24 ≤ cfg.cap) :
+    (handle cfg fs (encHdr h ++ ((le64 fh ++ le64 off ++ le32 payload.length ++ le32 wf ++ le64 owner ++
+        le32 flags ++ le32 pad) ++ payload))).out =
+      emit cfg (outHeader 24 0 h.unique ++ (le32 n ++ le32 0)) := by
+  rw [handle_reaches_handler cfg fs h R.wf _ R.len R.remapOk, hop]
+  unfold handleBody
+  simp only
+  rw [withObj_ok _ _ _ _ _ (by simp only [List.length_append, le32_length, le64_length]; omega)]
+  rw [simple_out _ _ _ _ _ _ _ (le32 n ++ le32 0) [] (by rw [hans _ rfl]; intro e he; cases he)
+    (by rw [hans _ rfl]) (by simp only [List.length_append, le32_length, List.length_nil]; omega)]
+  simp
+
+theorem write_reply_decodes (n : Nat) (rest : Bytes) :
+    u32At (le32 n ++ le32 0 ++ rest) 0 = n % 2 ^ 32 ∧ u32At (le32 n ++ le32 0 ++ rest) 4 = 0 := by
+  constructor <;> wire_mod
+
+/-- STATFS: `fuse_kstatfs` converted from the file system's `statvfs64` -/
+theorem statfs_reply_exact (cfg : Cfg) (fs : Call → Ans) (h : Hdr) (R : Req fs h) (hop : h.op = 17)
+    (s : Statvfs) (trail : Bytes)
+    (hans : ∀ c, c.method = "statfs" → fs c = .statfs s) (hcap : 96 ≤ cfg.cap) :
+    (handle cfg fs (encHdr h ++ trail)).out =
+      emit cfg (outHeader 96 0 h.unique ++ kstatfsBytes (kstatfsOfStatvfs s)) := by
+  rw [handle_reaches_handler cfg fs h R.wf _ R.len R.remapOk, hop]
+  unfold handleBody
+  simp only
+  have hl : (kstatfsBytes (kstatfsOfStatvfs s)).length = 80 := by simp [kstatfsBytes, zeros]
+  rw [simple_out _ _ _ _ _ _ _ (kstatfsBytes (kstatfsOfStatvfs s)) [] (by rw [hans _ rfl]; intro e he; cases he)
+    (by rw [hans _ rfl]) (by rw [hl]; simp only [List.length_nil]; omega)]
+  simp [hl]
+
+/-- what the kernel reads from the STATFS reply: every `statvfs64` field, truncated to the wire widths -/
+theorem statfs_reply_decodes (s : Statvfs) (rest : Bytes) :
+    let b := kstatfsBytes (kstatfsOfStatvfs s) ++ rest
+    u64At b 0 = s.blocks % 2 ^ 64 ∧ u64At b 8 = s.bfree % 2 ^ 64 ∧ u64At b 16 = s.bavail % 2 ^ 64 ∧
+    u64At b 24 = s.files % 2 ^ 64 ∧ u64At b 32 = s.ffree % 2 ^ 64 ∧ u32At b 40 = s.bsize % 2 ^ 32 ∧
+    u32At b 44 = s.namemax % 2 ^ 32 ∧ u32At b 48 = s.frsize % 2 ^ 32 := by
+  simp only
+  refine ⟨?_, ?_, ?_, ?_, ?_, ?_, ?_, ?_⟩ <;>
+    (unfold kstatfsBytes kstatfsOfStatvfs; wire_mod; try (simp only [u32, Nat.mod_mod]))
+
+/-- BMAP -/
+theorem bmap_reply_exact (cfg : Cfg) (fs : Call → Ans) (h : Hdr) (R : Req fs h) (hop : h.op = 37)
+    (block bs pad n : Nat) (trail : Bytes)
+    (hans : ∀ c, c.method = "bmap" → fs c = .count n) (hcap : 24 ≤ cfg.cap) :
+    (handle cfg fs (encHdr h ++ (le64 block ++ le32 bs ++ le32 pad ++ trail))).out =
+      emit cfg (outHeader 24 0 h.unique ++ le64 n) := by
+  rw [handle_reaches_handler cfg fs h R.wf _ R.len R.remapOk, hop]
+  unfold handleBody
+  simp only
+  rw [withObj_ok _ _ _ _ _ (by simp only [List.length_append, le32_length, le64_length]; omega)]
+  rw [simple_out _ _ _ _ _ _ _ (le64 n) [] (by rw [hans _ rfl]; intro e he; cases he)
+    (by rw [hans _ rfl]) (by simp only [le64_length, List.length_nil]; omega)]
+  simp
+
+/-- POLL: the ready events as `fuse_poll_out` -/
+theorem poll_reply_exact (cfg : Cfg) (fs : Call → Ans) (h : Hdr) (R : Req fs h) (hop : h.op = 40)
+    (fh kh flags events n : Nat) (trail : Bytes)
+    (hans : ∀ c, c.method = "poll" → fs c = .count n) (hcap : 24 ≤ cfg.cap) :
+    (handle cfg fs (encHdr h ++ (le64 fh ++ le64 kh ++ le32 flags ++ le32 events ++ trail))).out =
+      emit cfg (outHeader 24 0 h.unique ++ (le32 n ++ le32 0)) := by
+  rw [handle_reaches_handler cfg fs h R.wf _ R.len R.remapOk, hop]
+  unfold handleBody
+  simp only
+  rw [withObj_ok _ _ _ _ _ (by simp only [List.length_append, le32_length, le64_length]; omega)]
+  rw [simple_out _ _ _ _ _ _ _ (le32 n ++ le32 0) [] (by rw [hans _ rfl]; intro e he; cases he)
+    (by rw [hans _ rfl]) (by simp only [List.length_append, le32_length, List.length_nil]; omega)]
+  simp
+
+/-- LISTXATTR with size 0 asks for the length: `fuse_getxattr_out` -/
+theorem listxattr_size_reply_exact (cfg : Cfg) (fs : Call → Ans) (h : Hdr) (R : Req fs h) (hop : h.op = 23)
+    (size pad n : Nat) (trail : Bytes)
+    (hans : ∀ c, c.method = "listxattr" → fs c = .count n) (hcap : 24 ≤ cfg.cap) :
+    (handle cfg fs (encHdr h ++ (le32 size ++ le32 pad ++ trail))).out =
+      emit cfg (outHeader 24 0 h.unique ++ (le32 n ++ le32 0)) := by
+  rw [handle_reaches_handler cfg fs h R.wf _ R.len R.remapOk, hop]
+  unfold handleBody
+  simp only
+  rw [withObj_ok _ _ _ _ _ (by simp only [List.length_append, le32_length]; omega)]
+  rw [simple_out _ _ _ _ _ _ _ (le32 n ++ le32 0) [] (by rw [hans _ rfl]; intro e he; cases he)
+    (by rw [hans _ rfl]) (by simp only [List.length_append, le32_length, List.length_nil]; omega)]
+  simp
+
+/-- LISTXATTR names: the reply payload is exactly the bytes the file system returned -/
+theorem listxattr_data_reply_exact (cfg : Cfg) (fs : Call → Ans) (h : Hdr) (R : Req fs h) (hop : h.op = 23)
+    (size pad : Nat) (d trail : Bytes)
+    (hans : ∀ c, c.method = "listxattr" → fs c = .data d) (hcap : 16 + d.length ≤ cfg.cap) :
+    (handle cfg fs (encHdr h ++ (le32 size ++ le32 pad ++ trail))).out =
+      emit cfg (outHeader (16 + d.length) 0 h.unique ++ d) := by
+  rw [handle_reaches_handler cfg fs h R.wf _ R.len R.remapOk, hop]
+  unfold handleBody
+  simp only
+  rw [withObj_ok _ _ _ _ _ (by simp only [List.length_append, le32_length]; omega)]
+  rw [simple_out _ _ _ _ _ _ _ [] d (by rw [hans _ rfl]; intro e he; cases he)
+    (by rw [hans _ rfl]) (by simp only [List.length_nil]; omega)]
+  simp
+
+/-- GETLK: the conflicting lock as `fuse_lk_out` -/
+theorem getlk_reply_exact (cfg : Cfg) (fs : Call → Ans) (h : Hdr) (R : Req fs h) (hop : h.op = 31)
+    (fh owner st en typ pid lkf pad s e t p : Nat) (trail : Bytes)
+    (hans : ∀ c, c.method = "getlk" → fs c = .lock s e t p) (hcap : 40 ≤ cfg.cap) :
+    (handle cfg fs (encHdr h ++ (le64 fh ++ le64 owner ++ le64 st ++ le64 en ++ le32 typ ++ le32 pid ++
+        le32 lkf ++ le32 pad ++ trail))).out =
+      emit cfg (outHeader 40 0 h.unique ++ (le64 s ++ le64 e ++ le32 t ++ le32 p)) := by
+  rw [handle_reaches_handler cfg fs h R.wf _ R.len R.remapOk, hop]
+  unfold handleBody
+  simp only
+  rw [withObj_ok _ _ _ _ _ (by simp only [List.length_append, le32_length, le64_length]; omega)]
+  rw [simple_out _ _ _ _ _ _ _ (le64 s ++ le64 e ++ le32 t ++ le32 p) [] (by rw [hans _ rfl]; intro e he; cases he)
+    (by rw [hans _ rfl]) (by simp only [List.length_append, le32_length, le64_length, List.length_nil]; omega)]
+  simp
+
+theorem getlk_reply_decodes (s e t p : Nat) (rest : Bytes) :
+    let b := le64 s ++ le64 e ++ le32 t ++ le32 p ++ rest
+    u64At b 0 = s % 2 ^ 64 ∧ u64At b 8 = e % 2 ^ 64 ∧ u32At b 16 = t % 2 ^ 32 ∧ u32At b 20 = p % 2 ^ 32 := by
+  simp only
+  refine ⟨?_, ?_, ?_, ?_⟩ <;> wire_mod
+
+/-- OPENDIR: handle and options; never a passthrough id -/
+theorem opendir_reply_exact (cfg : Cfg) (fs : Call → Ans) (h : Hdr) (R : Req fs h) (hop : h.op = 27)
+    (flags pad : Nat) (fh pt : Option Nat) (opts : Nat) (trail : Bytes)
+    (hans : ∀ c, c.method = "opendir" → fs c = .opened fh opts pt) (hcap : 32 ≤ cfg.cap) :
+    (handle cfg fs (encHdr h ++ (le32 flags ++ le32 pad ++ trail))).out =
+      emit cfg (outHeader 32 0 h.unique ++ openOutBytes fh opts none) := by
+  rw [handle_reaches_handler cfg fs h R.wf _ R.len R.remapOk, hop]
+  unfold handleBody
+  simp only
+  rw [withObj_ok _ _ _ _ _ (by simp only [List.length_append, le32_length]; omega)]
+  have hl : (openOutBytes fh opts none).length = 16 := by simp [openOutBytes]
+  rw [simple_out _ _ _ _ _ _ _ (openOutBytes fh opts none) [] (by rw [hans _ rfl]; intro e he; cases he)
+    (by rw [hans _ rfl]) (by rw [hl]; simp only [List.length_nil]; omega)]
+  simp [hl]
+
+/-- requests answered without a body (here FLUSH; the same shape serves RELEASE, FSYNC, ACCESS,
+    SETLK, FALLOCATE, …): a bare header with error 0 -/
+theorem flush_reply_is_bare_header (cfg : Cfg) (fs : Call → Ans) (h : Hdr) (R : Req fs h) (hop : h.op = 25)
+    (fh un pad owner : Nat) (trail : Bytes)
+    (hans : ∀ c, c.method = "flush" → fs c = .unit) (hcap : 16 ≤ cfg.cap) :
+    (handle cfg fs (encHdr h ++ (le64 fh ++ le32 un ++ le32 pad ++ le64 owner ++ trail))).out =
+      emit cfg (outHeader 16 0 h.unique) := by
+  rw [handle_reaches_handler cfg fs h R.wf _ R.len R.remapOk, hop]
+  unfold handleBody
+  simp only
+  rw [withObj_ok _ _ _ _ _ (by simp only [List.length_append, le32_length, le64_length]; omega)]
+  rw [simple_out _ _ _ _ _ _ _ [] [] (by rw [hans _ rfl]; intro e he; cases he)
+    (by rw [hans _ rfl]; rfl) (by simp only [List.length_nil]; omega)]
+  simp
+
+/-- and an error from the file system on such a request is the bare header with the negated errno -/
+theorem flush_error_reply (cfg : Cfg) (fs : Call → Ans) (h : Hdr) (R : Req fs h) (hop : h.op = 25)
+    (fh un pad owner n : Nat) (trail : Bytes)
+    (hans : ∀ c, c.method = "flush" → fs c = .err (.os n)) (h1 : 1 ≤ n) (hn : n < 2 ^ 32) (hcap : 16 ≤ cfg.cap) :
+    (handle cfg fs (encHdr h ++ (le64 fh ++ le32 un ++ le32 pad ++ le64 owner ++ trail))).out =
+      emit cfg (outHeader 16 (2 ^ 32 - n) h.unique) := by
+  rw [handle_reaches_handler cfg fs h R.wf _ R.len R.remapOk, hop]
+  unfold handleBody
+  simp only
+  rw [withObj_ok _ _ _ _ _ (by simp only [List.length_append, le32_length, le64_length]; omega)]
+  unfold simple finish
+  rw [hans _ rfl]
+  simp only [errRes]
+  rcases replyErr_cases cfg h.unique (.os n) with ⟨_, hlt⟩ | ⟨hh, _⟩
+  · omega
+  · rw [hh]; simp only [errField]
+    rw [Nat.mod_eq_of_lt hn, Nat.mod_eq_of_lt (by omega : 2 ^ 32 - n < 2 ^ 32)]
 
 end Fbr.Thm.C03
